@@ -11,40 +11,10 @@ LEVEL_NOTE = ("Trusted: Lean 4.33.0 kernel (leanchecker re-check in the thorough
               "driver glue). The theorems are about the hand-written executable model; the model is tied to /repo's working "
               "tree on every run by running model and implementation on the same generated operation sequences and diffing. ")
 
-CLAIMED = {
-    "C04": dict(
-        text=("Machine-checked Lean 4 theorems about an executable model of NotificationCenter (registry, counted holds with "
-              "coalescing queues, counted disables, dead observers, re-entrant one-shot callback scripts): invariants for every "
-              "reachable state and every callback script, exact delivery lists, hold/disable/scope laws, lookup exactness. "
-              "The model is tied to the code by a differential run on generated op sequences (incl. re-entrancy and the "
-              "BaseObject wrappers) and a flat-specification oracle evaluated on the implementation's own trace."),
-        design="DESIGN.md section 5 (C04)",
-        note="Modelled not verified: CPython weakref death (explicit kill op), fnmatch restricted to literals/*/?; exception classes mapped to an enum.",
-        technique="Lean 4 proof (invariant induction over ops and fuel) + model/implementation correspondence",
-    ),
-    "C07": dict(
-        text=("Lean 4 refinement proof about an executable model of Layer's lazy-loading bookkeeping (_glyphs/_keys/"
-              "_scheduledForDeletion/glyph set/unicode data): a well-formedness invariant preserved by every operation, and an "
-              "abstraction `abs` (the content a user who reads everything sees) with which every operation commutes and of which "
-              "every query is a function — so unread / partly read / fully read / memory-only layers are indistinguishable after any "
-              "history (theorem lazy_transparent), and an in-place save writes exactly `abs` (save_reopen). glyphsWithOutlines is "
-              "proved under the coherence hypothesis and refuted without it (known finding F33). Tied to the code by differential "
-              "runs of model and real defcon on generated UFOs in four read-variants, plus a shadow-specification oracle."),
-        design="DESIGN.md section 5 (C07)",
-        note="Modelled not verified: ufoLib's GLIF scanners and defcon's fast outline parser are represented by the record fields they compute; which glyphs are loaded is not compared (only abstract-content-determined outputs are); layer bounds not compared here.",
-        technique="Lean 4 proof (refinement to an abstract partial map, invariant induction over ops) + model/implementation correspondence",
-    ),
-    "C09": dict(
-        text=("Lean 4 invariant proof on the same Layer model: in every state reachable by any sequence of create/replace/insert/"
-              "delete/rename/unicodes-assignment/read/save with the unicode data first built at any point, the map is exactly the "
-              "inverse of the glyphs' unicodes (no stale, none missing, none twice) — theorem uni_inverse, by induction over the "
-              "operation list from set-level characterisations of addGlyphData/removeGlyphData and of the lazy constructor. Tied to "
-              "the code by differential runs (unicode-heavy histories, first access at a random position) and a direct oracle."),
-        design="DESIGN.md section 5 (C09)",
-        note="Domain: unicode lists without duplicates, renames onto absent names. ufoLib's getUnicodes scanner exercised, not modelled. Reload after external change is covered under C05's model, not here.",
-        technique="Lean 4 proof (invariant induction over operation sequences) + model/implementation correspondence",
-    ),
-}
+CLAIMED = {}
+for _f in sorted(os.listdir(os.path.join(os.path.dirname(os.path.abspath(__file__)), "claims"))):
+    if _f.endswith(".json"):
+        CLAIMED[_f[:-5]] = json.load(open(os.path.join(os.path.dirname(os.path.abspath(__file__)), "claims", _f)))
 
 NOT_YET = {}
 
